@@ -106,7 +106,7 @@ func NewSimFS(files []FileSpec, edits []EditEvent, faults []FaultSpec) *SimFS {
 //
 //go:norace
 func (s *SimFS) SetOp(op int) {
-	t := simrt.Cur()
+	t := simrt.Root() // reads of a goroutine the library started count for the operation that started it
 	if t < 0 {
 		t = 0
 	}
@@ -115,7 +115,7 @@ func (s *SimFS) SetOp(op int) {
 
 //go:norace
 func (s *SimFS) op() int {
-	t := simrt.Cur()
+	t := simrt.Root() // reads of a goroutine the library started count for the operation that started it
 	if t < 0 {
 		t = 0
 	}
